@@ -138,6 +138,33 @@ def run(chk) -> None:
                                          (("waiter_id", "waiter_id"), ("requirements", "requirements"), ("timeout", "timeout"), ("event_type", "event_type"), ("waiter_event", "waiter_event")))
         chk.ob("C10.R3", "the AddWaiter request carries id, type, requirements, timeout and waiter_event unchanged", ok, m=mi, node=n.ast, fn=wf, instance="wait:add-waiter-payload", reason=ast.unparse(n.ast)[:120])
 
+    # waiter identity: the default waiter id separates waits that differ in event type or in any requirement key/value,
+    # and is a pure function of them (AST evaluation of the id expression on a small grid of waits)
+    from ..absint import Interp, Raised, Record, Unsupported
+    idassign = [s_ for s_ in ast.walk(wf) if isinstance(s_, ast.Assign) and len(s_.targets) == 1 and ast.unparse(s_.targets[0]) == "waiter_id" and isinstance(s_.value, ast.BoolOp) and isinstance(s_.value.op, ast.Or)]
+    chk.floor("C10.R3", "default waiter id derivations", len(idassign), 1)
+    for s_ in idassign:
+        default = expand(s_.value.values[-1], s_, depth=3, stop=("event_type", "requirements"))
+        grid = []
+        for tname in ("EvA", "EvB"):
+            for req in ({}, {"k": 1}, {"k": 2}, {"k": 1, "j": 1}, {"j": 1}, {"k": "1"}):
+                grid.append((tname, req))
+        ids, bad = {}, ""
+        try:
+            for tname, req in grid:
+                env = {"event_type": Record("type", __module__="m", __name__=tname, __qualname__=tname), "requirements": dict(req), "str": str, "repr": repr}
+                v1 = Interp().eval(default, dict(env))
+                v2 = Interp().eval(default, {**env, "requirements": dict(req)})
+                if v1 != v2:
+                    bad = bad or f"id of wait({tname}, {req}) is not deterministic"
+                if v1 in ids and ids[v1] != (tname, req):
+                    bad = bad or f"waits {ids[v1]} and {(tname, req)} get the same default waiter id {v1!r}: they share one waiter record, so the second wait returns the first wait's event and its waiter_event is never published"
+                ids[v1] = (tname, req)
+        except (Unsupported, Raised) as e:
+            raise AnchorError(f"C10.R3: cannot evaluate the default waiter id `{ast.unparse(default)[:90]}`: {e}")
+        chk.ob("C10.R3", f"the default waiter id distinguishes waits that differ in event type or in any requirement key or value ({len(grid)} waits, pairwise)", not bad, m=mi, node=s_, fn=wf,
+               instance="wait:default-id-injective", reason=bad)
+
     # ---------------------------------------------------------------- R4 serialization of the fields matching depends on
     msx = repo.module("workflows.context.context_types")
     sw = msx.classes.get("SerializedWaiter")
@@ -166,6 +193,9 @@ TWINS = [
     Twin("waiter event republished", CL_REL, "                worker_state.collected_waiters.append(new_waiter)\n                if result.waiter_event:\n                    commands.append(CommandPublishEvent(event=result.waiter_event))", "                worker_state.collected_waiters.append(new_waiter)\n            if result.waiter_event:\n                commands.append(CommandPublishEvent(event=result.waiter_event))\n            if existing is None:", "C10.R3"),
     Twin("timeout keeps waiter", IC_REL, "        if waiter is not None and waiter.timed_out:\n            step_ctx.returns.return_values.append(DeleteWaiter(waiter_id=waiter_id))\n            raise", "        if waiter is not None and waiter.timed_out:\n            raise", "C10.R3"),
     Twin("timeout for any existing waiter", IC_REL, "        if waiter is not None and waiter.timed_out:", "        if waiter is not None and (waiter.timed_out or waiter.resolved_event is None):", "C10.R3"),
+    Twin("waiter id ignores requirement values", IC_REL, "        requirements_str = str(requirements)", "        requirements_str = \",\".join(sorted(requirements))", "C10.R3"),
+    Twin("waiter id ignores event type", IC_REL, 'waiter_id = waiter_id or f"waiter_{event_str}_{requirements_str}"', 'waiter_id = waiter_id or f"waiter_{requirements_str}"', "C10.R3"),
+    Twin("benign: waiter id via repr of sorted items", IC_REL, "        requirements_str = str(requirements)", "        requirements_str = repr(sorted(requirements.items()))", None),
     Twin("waiter deleted on failure", CL_REL, "            if did_complete_step:  # allow retries to grab the waiter events", "            if True:  # allow retries to grab the waiter events", "C10.R3"),
     Twin("resolved event not serialized back", IS_REL, "                        resolved_event=serializer.deserialize(\n                            waiter_data.resolved_event\n                        )\n                        if waiter_data.resolved_event\n                        else None,", "                        resolved_event=None,", "C10.R4"),
     Twin("benign: match as one expression", CL_REL, "            is_match = type(tick.event) is wait_condition.waiting_for_event\n            is_match = is_match and all(", "            is_match = (type(tick.event) is wait_condition.waiting_for_event) and all(", None),
